@@ -176,6 +176,9 @@ def run_property(ctx, mod, units, t0):
             used.add(a)
         if r.info:
             infos[r.name] = {k: v for k, v in r.info.items() if k in ("callees", "unrolled", "dropped_calls", "file_sha", "wellformed", "paths", "source_sha", "dropped")}
+    for a in sorted(used):
+        if a.startswith("iteration-counter:"):
+            trusted.append("not checked: overflow of the step counter " + a[len("iteration-counter:"):])
     if "rne_magic" in used:
         trusted.append("lemma rne_magic: (x+6755399441055744.0)-6755399441055744.0 == round-half-even(x) for |x|<=2^51 in IEEE double "
                        "(proved bit-precisely by lemma:rne_magic in the C06 thorough tier)")
